@@ -37,6 +37,10 @@ func RunC20(t *Trace, st *Stats) *Violation {
 		}
 	}
 	directOpts := cfg.Options()
+	// the caller's option slice has spare capacity and is reused after the constructor returned
+	callerOpts := make([]carv2.Option, 0, len(opts)+4)
+	callerOpts = append(callerOpts, opts...)
+	opts = callerOpts
 	env := NewEnv() // deferred target
 	sim.CurrentFS = env.FS
 	sink := sim.NewSink()
@@ -50,6 +54,8 @@ func RunC20(t *Trace, st *Stats) *Violation {
 	default:
 		dw = deferred.NewDeferredCarWriterForPath(env.Path, roots, opts...)
 	}
+	callerOpts = append(callerOpts, carv2.UseIndexPadding(7777), carv2.WriteAsCarV1(!cfg.CarV1)) // unrelated later use of the same slice
+	_ = callerOpts
 	// direct twin, constructed at the first put
 	var direct storage.WritableCar
 	dsink := sim.NewSink()
